@@ -263,6 +263,42 @@ def digit_pattern_scalars():
 _DIGITS = digit_pattern_scalars()
 
 
+def scalar_near_l_values():
+    """(class, integer < 2^256): values that agree with l (or a small multiple) on a prefix / suffix of bits and differ at
+    one chosen position - what a word-wise or limb-wise comparison with l has to get right at every position"""
+    out = set()
+    for j in range(256):
+        for base in (L, 2 * L, 8 * L):
+            for v in (base + (1 << j), base - (1 << j), base ^ (1 << j), base | ((1 << j) - 1), base & ~((1 << j) - 1)):
+                if 0 <= v < 2**256:
+                    out.add(v)
+    return [('near-l', v) for v in sorted(out)]
+
+
+def scalar_word_patterns():
+    """(class, integer < 2^256): every 64-bit word (and a sample of 32-bit words) at 0 / 1 / all ones / top bit: carries
+    that have to ripple through all-ones words, borrows through zero words"""
+    out = set()
+    W = [0, 1, (1 << 64) - 1, 1 << 63]
+    for a in W:
+        for b in W:
+            for c in W:
+                for d in W:
+                    out.add(a | (b << 64) | (c << 128) | (d << 192))
+    for k in range(1, 8):
+        out.add((1 << (32 * k)) - 1)
+        out.add(1 << (32 * k))
+        out.add(((1 << 256) - 1) ^ ((1 << (32 * k)) - 1))
+    for k in (1, 2, 3):
+        out.add((1 << (64 * k)) - 2)
+        out.add((1 << (64 * k)) + 1)
+    return [('words', v) for v in sorted(out)]
+
+
+_SNEAR = scalar_near_l_values()
+_SWORDS = scalar_word_patterns()
+
+
 def scalar_value(rng, bits=256):
     """(cls, int < 2^bits)"""
     r = rng.random()
@@ -272,10 +308,16 @@ def scalar_value(rng, bits=256):
     if r < 0.45:
         c, v = rng.choice(_DIGITS)
         return (c, v % (1 << bits))
+    if r < 0.50:
+        c, v = rng.choice(_SNEAR)
+        return (c, v % (1 << bits))
     if r < 0.55:
+        c, v = rng.choice(_SWORDS)
+        return (c, v % (1 << bits))
+    if r < 0.60:
         k = rng.randrange(16)
         return ('kl', (k * L + rng.randint(-3, 3)) % (1 << bits))
-    if r < 0.62:
+    if r < 0.66:
         v = 0
         for _ in range(rng.randint(1, 4)):
             v |= 1 << rng.randrange(bits)
@@ -448,7 +490,22 @@ def montgomery_us(rng, n):
     out = [('small-order', to32(u)) for u in small_order]
     out += [('small-order', to32(u | (1 << 255))) for u in small_order]
     out += [('corner', to32(v)) for v in (2, 9, 2**255 - 1, 2**255 - 19, 2**255 - 18, 2**256 - 1, P - 2, 2**255)]
-    while len(out) < n:
+    # neighbours of the distinguished u values (basepoint 9, 0, 1, -1, p): one bit changed anywhere, one byte replaced,
+    # multiples of 2^248 added - a shortcut that recognises such a value must look at all 255 bits
+    near = []
+    for base in (9, 0, 1, P - 1, P):
+        for j in range(256):
+            near.append(base ^ (1 << j))
+        for k in range(32):
+            near.append((base & ~(0xff << (8 * k))) | (rng.randrange(256) << (8 * k)))
+        for _ in range(4):
+            near.append((base + rng.randrange(1, 128) * (1 << 248)) % (1 << 256))
+    nine = near[:292]                 # every neighbour of the basepoint, always
+    rest = near[292:]
+    rng.shuffle(rest)
+    near = nine + rest[:max(40, n // 2)]
+    out += [('near-special', to32(v)) for v in near]
+    while len(out) < n + len(near):
         r = rng.random()
         if r < 0.5:
             out.append(('random', rb(rng, 32)))
